@@ -98,6 +98,7 @@ def strategy(cfg):
         for i in range(cfg["worlds"]):
             raw = gen.draw_tree(draw, max_depth=2, max_files=2, max_subdirs=2, max_cmds=2, budget=3,
                                 duplicates=cfg.get("duplicates", False))
+            gen.add_numeric_twins(draw, raw)
             gen.fix_for_auto_exclude(raw)
             tree = {}
             for rel, c in raw.items():
@@ -138,6 +139,10 @@ def strategy(cfg):
         if cfg["patterns"]:
             names = sorted({posixpath.basename(r) for wd in worlds for r in wd["tree"]})
             pats = draw(st.lists(st.sampled_from(names), max_size=2, unique=True))
+            if names and draw(st.booleans()):
+                # a pair whose effect depends on the ORDER of the patterns (gitignore: the last match wins)
+                keep = draw(st.sampled_from(names))
+                pats = pats + [keep[:1] + "*", "!" + keep]
         return {"worlds": worlds, "ops": ops, "prefix": cfg["prefix"], "patterns": pats}
     return world()
 
@@ -213,7 +218,7 @@ def evaluate(spec, ctx):
         import fnmatch
         anc_cause = "other"
         for p in spec["patterns"]:
-            if any(fnmatch.fnmatchcase(c, p) for loc in LOCS for c in loc.split("/")):
+            if not p.startswith("!") and any(fnmatch.fnmatchcase(c, p) for loc in LOCS for c in loc.split("/")):
                 anc_cause = "pattern-matches-ancestor"
         for opi, op in enumerate(spec["ops"]):
             ctx.probes["op_" + op["op"]] += 1
@@ -222,6 +227,16 @@ def evaluate(spec, ctx):
             cwd, arg = _spell(op, target)
             if op.get("keep_out") and op["op"] in ("run", "run_file", "run_files"):
                 ctx.probes["output_dir_reused"] += 1      # whatever the previous step wrote stays in the way
+                if op.get("f", 0) % 2:
+                    # ... after an editor converted it to CRLF line ends
+                    outd = os.path.join(base, "out")
+                    for dp, _dn, fns in os.walk(outd):
+                        for fn in fns:
+                            pth = os.path.join(dp, fn)
+                            with open(pth, "rb") as fh:
+                                data = fh.read()
+                            with open(pth, "wb") as fh:
+                                fh.write(data.replace(b"\r\n", b"\n").replace(b"\n", b"\r\n"))
             else:
                 remove_outputs(base, ["out"])
             if op["op"] == "run":
